@@ -44,27 +44,6 @@ theorem DecDesc_split {tab : List (Nat × Nat)} {n z a b : Nat}
     simp only [Tree.split, DecDesc, Tree.rootId_split]
     exact ⟨h.1, h.2.1, DecDesc_split hz hab l h.2.2.1, DecDesc_split hz hab r h.2.2.2⟩
 
-/-- the sum of all weights fits the weight type -/
-def NoOverflow (wb : Option Nat) (heap : List (Nat × Nat)) : Prop :=
-  match wb with
-  | none => True
-  | some k => (heap.map (·.1)).sum < 2^k
-
-theorem addW_ok {wb : Option Nat} {heap h1 h2 : List (Nat × Nat)} {a b : Nat × Nat}
-    (hno : NoOverflow wb heap)
-    (e1 : popMin heap = some (a, h1)) (e2 : popMin h1 = some (b, h2)) (next : Nat) :
-    addW wb a.1 b.1 = .ok (a.1 + b.1) ∧ NoOverflow wb ((a.1 + b.1, next) :: h2) := by
-  have hp := (pop2_perm e1 e2).map (·.1)
-  have hs := hp.sum_nat
-  simp only [List.map_cons, List.sum_cons] at hs
-  cases wb with
-  | none => simp [addW, NoOverflow]
-  | some k =>
-    simp only [NoOverflow] at hno ⊢
-    simp only [addW, cadd, List.map_cons, List.sum_cons]
-    have : a.1 + b.1 < 2^k := by omega
-    simp [this]; omega
-
 theorem shl1 {next : Nat} (h : next < 2^63) : (next <<< 1) % 2^64 = 2 * next := by
   rw [Nat.shiftLeft_eq]; omega
 
@@ -73,176 +52,337 @@ theorem or1 (x : Nat) : (2 * x) ||| 1 = 2 * x + 1 := by
   rw [h2]
   exact (Nat.shiftLeft_add_eq_or_of_lt (b := 1) (i := 1) (by decide) x).symm
 
-theorem encLoop_spec (wb : Option Nat) : ∀ (fuel : Nat) (heap : List (Nat × Nat)) (arr : List Nat) (next : Nat),
-    HeapOK heap next → fuel = heap.length → heap ≠ [] → NoOverflow wb heap →
+section
+variable {α : Type} (ops : WeightOps α)
+
+/-- `prob0 + prob1` and the push either succeed or panic; they never touch an unsafe site -/
+theorem addPush_error {a b : α} {h2 : List (α × Nat)} {f : Fault}
+    (h : addPush ops a b h2 = .error f) : ∀ site, f ≠ .ub site := by
+  intro site
+  simp only [addPush] at h
+  split at h
+  · injection h with h; subst h; simp
+  · split at h
+    · injection h with h; subst h; simp
+    · simp at h
+
+/-- if the merge loop succeeds abstractly (`treeLoop`), the encoder loop succeeds and its array
+describes that tree -/
+theorem encLoop_spec : ∀ (fuel : Nat) (heap : List (α × Nat)) (arr : List Nat) (next : Nat),
+    HeapOK heap next → fuel = heap.length →
     next + heap.length ≤ arr.length + 1 → next + heap.length ≤ 2^63 →
-    ∃ arr', encLoop wb fuel heap arr next = .ok arr' ∧ arr'.length = arr.length ∧
+    ∀ T, treeLoop ops fuel heap next = some T →
+    ∃ arr', encLoop ops fuel heap arr next = .ok arr' ∧ arr'.length = arr.length ∧
       (∀ j, (heap.length = 1 ∨ (j ∉ heap.map (·.2) ∧ (j < next ∨ next + heap.length ≤ j + 2))) →
-        arr'[j]? = arr[j]?) ∧
-      ∀ T, treeLoop fuel heap next = some T → EncDesc arr' T
-  | 0, heap, _, _, _, hf, hne, _, _, _ => by
-    exact absurd (List.eq_nil_of_length_eq_zero hf.symm) hne
-  | fuel + 1, heap, arr, next, hok, hf, hne, hno, hlen, h63 => by
-    obtain ⟨a, h1, e1⟩ := popMin_isSome hne
-    simp only [encLoop, treeLoop, e1]
-    cases e2 : popMin h1 with
-    | none =>
-      refine ⟨arr, rfl, rfl, fun _ _ => rfl, ?_⟩
-      intro T hT; simp at hT; subst hT; simp [EncDesc]
-    | some bh =>
-      obtain ⟨b, h2⟩ := bh
-      obtain ⟨ha, hb, hab, ha2, hb2, hl, hok'⟩ := pop2_facts hok e1 e2 (a.1 + b.1)
-      obtain ⟨hadd, hno'⟩ := addW_ok hno e1 e2 next
-      have hn63 : next < 2^63 := by omega
-      have haL : a.2 < arr.length := by omega
-      have hbL : b.2 < (arr.set a.2 ((next <<< 1) % 2^64)).length := by simp; omega
-      have hc : cadd "huff.enc.next" 64 next 1 = .ok (next + 1) := by
-        simp only [cadd]; rw [if_pos (by omega)]
-      simp only [hadd, haL, hbL, if_true, hc]
-      rw [shl1 hn63, or1]
-      obtain ⟨arr', hrun, hlen', hkeep, hdesc⟩ :=
-        encLoop_spec wb fuel ((a.1 + b.1, next) :: h2)
-          ((arr.set a.2 (2 * next)).set b.2 (2 * next + 1)) (next + 1) hok'
-          (by simp; omega) (by simp) hno' (by simp; omega) (by simp; omega)
-      refine ⟨arr', hrun, by simpa using hlen', ?_, ?_⟩
-      · intro j hj
-        have hj' : j ∉ heap.map (·.2) ∧ (j < next ∨ next + heap.length ≤ j + 2) := by
-          rcases hj with h | h
-          · omega
-          · exact h
-        have hmem : ∀ p ∈ [a, b], p.2 ∈ heap.map (·.2) := by
-          intro p hp
-          have : p ∈ heap := (pop2_perm e1 e2).mem_iff.mpr (by
-            simp at hp; rcases hp with rfl | rfl <;> simp)
-          exact List.mem_map.mpr ⟨p, this, rfl⟩
-        have hja : a.2 ≠ j := fun e => hj'.1 (e ▸ hmem a (by simp))
-        have hjb : b.2 ≠ j := fun e => hj'.1 (e ▸ hmem b (by simp))
-        have hsub : ∀ x ∈ h2.map (·.2), x ∈ heap.map (·.2) := by
-          intro x hx
-          obtain ⟨p, hp1, hp2⟩ := List.mem_map.mp hx
-          have : p ∈ heap := (pop2_perm e1 e2).mem_iff.mpr (by simp [hp1])
-          exact List.mem_map.mpr ⟨p, this, hp2⟩
-        rw [hkeep j ?_]
-        · simp [hja, hjb]
-        · by_cases h2l : h2.length = 0
-          · left; simp [h2l]
-          · right
-            refine ⟨?_, ?_⟩
-            · simp only [List.map_cons, List.mem_cons, not_or]
-              refine ⟨?_, fun hx => hj'.1 (hsub j hx)⟩
-              omega
-            · simp only [List.length_cons]; omega
-      · intro T hT
-        simp only [Option.map_eq_some_iff] at hT
-        obtain ⟨T', hT', rfl⟩ := hT
-        have hd := hdesc T' hT'
-        refine EncDesc_split ?_ ?_ T' hd
-        · rw [hkeep a.2 ?_]
-          · simp [Ne.symm hab, haL]
-          · by_cases h2l : h2.length = 0
-            · left; simp [h2l]
-            · right
-              refine ⟨?_, by omega⟩
-              simp only [List.map_cons, List.mem_cons, not_or]
-              exact ⟨by omega, ha2⟩
-        · rw [hkeep b.2 ?_]
-          · have : b.2 < arr.length := by simpa using hbL
-            simp [this]
-          · by_cases h2l : h2.length = 0
-            · left; simp [h2l]
-            · right
-              refine ⟨?_, by omega⟩
-              simp only [List.map_cons, List.mem_cons, not_or]
-              exact ⟨by omega, hb2⟩
-
-theorem decLoop_spec (wb : Option Nat) (n : Nat) : ∀ (fuel : Nat) (heap : List (Nat × Nat))
-    (acc : List (Nat × Nat)) (next : Nat),
-    HeapOK heap next → fuel = heap.length → heap ≠ [] → NoOverflow wb heap →
-    next = n + acc.length → next + heap.length ≤ 2^63 →
-    ∃ tab, decLoop wb fuel heap acc next = .ok tab ∧ tab.length + 1 = acc.length + heap.length ∧
-      (∃ ext, tab = acc ++ ext) ∧
-      ∀ T, treeLoop fuel heap next = some T → DecDesc tab n T
-  | 0, heap, _, _, _, hf, hne, _, _, _ => by
-    exact absurd (List.eq_nil_of_length_eq_zero hf.symm) hne
-  | fuel + 1, heap, acc, next, hok, hf, hne, hno, hnext, h63 => by
-    obtain ⟨a, h1, e1⟩ := popMin_isSome hne
-    simp only [decLoop, treeLoop, e1]
-    cases e2 : popMin h1 with
-    | none =>
-      have h1nil := popMin_eq_none.mp e2
-      subst h1nil
-      have hheap : heap = [a] := List.perm_singleton.mp (popMin_perm e1)
-      subst hheap
-      refine ⟨acc, rfl, by simp, ⟨[], by simp⟩, ?_⟩
-      intro T hT; simp at hT; subst hT; simp [DecDesc]
-    | some bh =>
-      obtain ⟨b, h2⟩ := bh
-      obtain ⟨ha, hb, hab, ha2, hb2, hl, hok'⟩ := pop2_facts hok e1 e2 (a.1 + b.1)
-      obtain ⟨hadd, hno'⟩ := addW_ok hno e1 e2 next
-      have hc : cadd "huff.dec.next" 64 next 1 = .ok (next + 1) := by
-        simp only [cadd]; rw [if_pos (by omega)]
-      simp only [hadd, hc]
-      obtain ⟨tab, hrun, hlen', ⟨ext, hext⟩, hdesc⟩ :=
-        decLoop_spec wb n fuel ((a.1 + b.1, next) :: h2) (acc ++ [(a.2, b.2)]) (next + 1) hok'
-          (by simp; omega) (by simp) hno' (by simp; omega) (by simp; omega)
-      refine ⟨tab, hrun, by simp at hlen'; omega, ⟨(a.2, b.2) :: ext, by simp [hext]⟩, ?_⟩
-      intro T hT
-      simp only [Option.map_eq_some_iff] at hT
-      obtain ⟨T', hT', rfl⟩ := hT
-      refine DecDesc_split (by omega) ?_ T' (hdesc T' hT')
-      have : next - n = acc.length := by omega
-      rw [this, hext]
-      simp
-
-/-- as long as the weight sum fits, the weight type is irrelevant -/
-theorem encLoop_wb_irrelevant (wb : Option Nat) : ∀ (fuel : Nat) (heap : List (Nat × Nat))
-    (arr : List Nat) (next : Nat), NoOverflow wb heap →
-    encLoop wb fuel heap arr next = encLoop none fuel heap arr next
-  | 0, _, _, _, _ => by simp [encLoop]
-  | fuel + 1, heap, arr, next, hno => by
-    cases e1 : popMin heap with
-    | none => simp [encLoop, e1]
+        arr'[j]? = arr[j]?) ∧ EncDesc arr' T
+  | 0, heap, _, _, _, _, _, _, T, hT => by simp [treeLoop] at hT
+  | fuel + 1, heap, arr, next, hok, hf, hlen, h63, T, hT => by
+    simp only [treeLoop] at hT
+    cases e1 : popMin ops heap with
+    | none => simp [e1] at hT
     | some ah =>
       obtain ⟨a, h1⟩ := ah
-      cases e2 : popMin h1 with
-      | none => simp [encLoop, e1, e2]
+      simp only [e1] at hT
+      cases e2 : popMin ops h1 with
+      | none =>
+        simp only [e2] at hT
+        injection hT with hT; subst hT
+        exact ⟨arr, by simp [encLoop, e1, e2], rfl, fun _ _ => rfl, by simp [EncDesc]⟩
       | some bh =>
         obtain ⟨b, h2⟩ := bh
-        obtain ⟨hadd, hno'⟩ := addW_ok hno e1 e2 next
-        have hadd' : addW none a.1 b.1 = .ok (a.1 + b.1) := rfl
-        simp only [encLoop, e1, e2, hadd, hadd']
+        simp only [e2] at hT
+        cases hadd : addPush ops a.1 b.1 h2 with
+        | error f => simp [hadd] at hT
+        | ok w =>
+          simp only [hadd, Option.map_eq_some_iff] at hT
+          obtain ⟨T', hT', rfl⟩ := hT
+          obtain ⟨ha, hb, hab, ha2, hb2, hl, hok'⟩ := pop2_facts hok e1 e2 w
+          have hn63 : next < 2^63 := by omega
+          have haL : a.2 < arr.length := by omega
+          have hbL : b.2 < (arr.set a.2 ((next <<< 1) % 2^64)).length := by simp; omega
+          have hc : cadd "huff.enc.next" 64 next 1 = .ok (next + 1) := by
+            simp only [cadd]; rw [if_pos (by omega)]
+          simp only [encLoop, e1, e2, hadd, haL, hbL, if_true, hc]
+          rw [shl1 hn63, or1]
+          obtain ⟨arr', hrun, hlen', hkeep, hd⟩ :=
+            encLoop_spec fuel ((w, next) :: h2)
+              ((arr.set a.2 (2 * next)).set b.2 (2 * next + 1)) (next + 1) hok'
+              (by simp; omega) (by simp; omega) (by simp; omega) T' hT'
+          refine ⟨arr', hrun, by simpa using hlen', ?_, ?_⟩
+          · intro j hj
+            have hj' : j ∉ heap.map (·.2) ∧ (j < next ∨ next + heap.length ≤ j + 2) := by
+              rcases hj with h | h
+              · omega
+              · exact h
+            have hmem : ∀ p ∈ [a, b], p.2 ∈ heap.map (·.2) := by
+              intro p hp
+              have : p ∈ heap := (pop2_perm e1 e2).mem_iff.mpr (by
+                simp at hp; rcases hp with rfl | rfl <;> simp)
+              exact List.mem_map.mpr ⟨p, this, rfl⟩
+            have hja : a.2 ≠ j := fun e => hj'.1 (e ▸ hmem a (by simp))
+            have hjb : b.2 ≠ j := fun e => hj'.1 (e ▸ hmem b (by simp))
+            have hsub : ∀ x ∈ h2.map (·.2), x ∈ heap.map (·.2) := by
+              intro x hx
+              obtain ⟨p, hp1, hp2⟩ := List.mem_map.mp hx
+              have : p ∈ heap := (pop2_perm e1 e2).mem_iff.mpr (by simp [hp1])
+              exact List.mem_map.mpr ⟨p, this, hp2⟩
+            rw [hkeep j ?_]
+            · simp [hja, hjb]
+            · by_cases h2l : h2.length = 0
+              · left; simp [h2l]
+              · right
+                refine ⟨?_, ?_⟩
+                · simp only [List.map_cons, List.mem_cons, not_or]
+                  refine ⟨?_, fun hx => hj'.1 (hsub j hx)⟩
+                  omega
+                · simp only [List.length_cons]; omega
+          · refine EncDesc_split ?_ ?_ T' hd
+            · rw [hkeep a.2 ?_]
+              · simp [Ne.symm hab, haL]
+              · by_cases h2l : h2.length = 0
+                · left; simp [h2l]
+                · right
+                  refine ⟨?_, by omega⟩
+                  simp only [List.map_cons, List.mem_cons, not_or]
+                  exact ⟨by omega, ha2⟩
+            · rw [hkeep b.2 ?_]
+              · have : b.2 < arr.length := by simpa using hbL
+                simp [this]
+              · by_cases h2l : h2.length = 0
+                · left; simp [h2l]
+                · right
+                  refine ⟨?_, by omega⟩
+                  simp only [List.map_cons, List.mem_cons, not_or]
+                  exact ⟨by omega, hb2⟩
+
+theorem decLoop_spec (n : Nat) : ∀ (fuel : Nat) (heap : List (α × Nat))
+    (acc : List (Nat × Nat)) (next : Nat),
+    HeapOK heap next → fuel = heap.length →
+    next = n + acc.length → next + heap.length ≤ 2^63 →
+    ∀ T, treeLoop ops fuel heap next = some T →
+    ∃ tab, decLoop ops fuel heap acc next = .ok tab ∧ tab.length + 1 = acc.length + heap.length ∧
+      (∃ ext, tab = acc ++ ext) ∧ DecDesc tab n T
+  | 0, heap, _, _, _, _, _, _, T, hT => by simp [treeLoop] at hT
+  | fuel + 1, heap, acc, next, hok, hf, hnext, h63, T, hT => by
+    simp only [treeLoop] at hT
+    cases e1 : popMin ops heap with
+    | none => simp [e1] at hT
+    | some ah =>
+      obtain ⟨a, h1⟩ := ah
+      simp only [e1] at hT
+      cases e2 : popMin ops h1 with
+      | none =>
+        simp only [e2] at hT
+        injection hT with hT; subst hT
+        have h1nil := (popMin_eq_none ops).mp e2
+        subst h1nil
+        have hheap : heap = [a] := List.perm_singleton.mp (popMin_perm e1)
+        subst hheap
+        exact ⟨acc, by simp [decLoop, e1, e2], by simp, ⟨[], by simp⟩, by simp [DecDesc]⟩
+      | some bh =>
+        obtain ⟨b, h2⟩ := bh
+        simp only [e2] at hT
+        cases hadd : addPush ops a.1 b.1 h2 with
+        | error f => simp [hadd] at hT
+        | ok w =>
+          simp only [hadd, Option.map_eq_some_iff] at hT
+          obtain ⟨T', hT', rfl⟩ := hT
+          obtain ⟨ha, hb, hab, ha2, hb2, hl, hok'⟩ := pop2_facts hok e1 e2 w
+          have hc : cadd "huff.dec.next" 64 next 1 = .ok (next + 1) := by
+            simp only [cadd]; rw [if_pos (by omega)]
+          simp only [decLoop, e1, e2, hadd, hc]
+          obtain ⟨tab, hrun, hlen', ⟨ext, hext⟩, hd⟩ :=
+            decLoop_spec n fuel ((w, next) :: h2) (acc ++ [(a.2, b.2)]) (next + 1) hok'
+              (by simp; omega) (by simp; omega) (by simp; omega) T' hT'
+          refine ⟨tab, hrun, by simp at hlen'; omega, ⟨(a.2, b.2) :: ext, by simp [hext]⟩, ?_⟩
+          refine DecDesc_split (by omega) ?_ T' hd
+          have : next - n = acc.length := by omega
+          rw [this, hext]
+          simp
+
+theorem cadd_cases (site : String) (n a b : Nat) :
+    cadd site n a b = .ok (a + b) ∨ cadd site n a b = .error (.overflow site) := by
+  simp only [cadd]; split <;> simp
+
+/-- conversely, if the encoder loop returns an array then the abstract merge loop succeeded -/
+theorem encLoop_ok_tree : ∀ (fuel : Nat) (heap : List (α × Nat)) (arr : List Nat) (next : Nat)
+    (arr' : List Nat), heap ≠ [] → encLoop ops fuel heap arr next = .ok arr' →
+    ∃ T, treeLoop ops fuel heap next = some T
+  | 0, _, _, _, _, _, h => by simp [encLoop] at h
+  | fuel + 1, heap, arr, next, arr', hne, h => by
+    obtain ⟨a, h1, e1⟩ := popMin_isSome (ops := ops) hne
+    simp only [encLoop, e1] at h
+    simp only [treeLoop, e1]
+    cases e2 : popMin ops h1 with
+    | none => exact ⟨_, rfl⟩
+    | some bh =>
+      obtain ⟨b, h2⟩ := bh
+      simp only [e2] at h
+      cases hadd : addPush ops a.1 b.1 h2 with
+      | error f => simp [hadd] at h
+      | ok w =>
+        simp only [hadd] at h
+        rcases cadd_cases "huff.enc.next" 64 next 1 with hc | hc
+        · simp only [hc] at h
+          split at h
+          · split at h
+            · obtain ⟨T', hT'⟩ :=
+                encLoop_ok_tree fuel ((w, next) :: h2) _ (next + 1) arr' (by simp) h
+              exact ⟨Tree.split next a.2 b.2 T', by simp [hadd, hT']⟩
+            · simp at h
+          · simp at h
+        · simp only [hc] at h
+          split at h <;> (try split at h) <;> simp at h
+
+theorem decLoop_ok_tree : ∀ (fuel : Nat) (heap : List (α × Nat)) (acc : List (Nat × Nat))
+    (next : Nat) (tab : List (Nat × Nat)), heap ≠ [] →
+    decLoop ops fuel heap acc next = .ok tab → ∃ T, treeLoop ops fuel heap next = some T
+  | 0, _, _, _, _, _, h => by simp [decLoop] at h
+  | fuel + 1, heap, acc, next, tab, hne, h => by
+    obtain ⟨a, h1, e1⟩ := popMin_isSome (ops := ops) hne
+    simp only [decLoop, e1] at h
+    simp only [treeLoop, e1]
+    cases e2 : popMin ops h1 with
+    | none => exact ⟨_, rfl⟩
+    | some bh =>
+      obtain ⟨b, h2⟩ := bh
+      simp only [e2] at h
+      cases hadd : addPush ops a.1 b.1 h2 with
+      | error f => simp [hadd] at h
+      | ok w =>
+        simp only [hadd] at h
+        rcases cadd_cases "huff.dec.next" 64 next 1 with hc | hc
+        · simp only [hc] at h
+          obtain ⟨T', hT'⟩ := decLoop_ok_tree fuel ((w, next) :: h2) _ (next + 1) tab (by simp) h
+          exact ⟨Tree.split next a.2 b.2 T', by simp [hadd, hT']⟩
+        · simp [hc] at h
+
+/-- a weight type whose `+` never panics and never yields an unorderable sum -/
+def Total : Prop := ∀ (a b : α) (h2 : List (α × Nat)), ∃ w, addPush ops a b h2 = .ok w
+
+theorem treeLoop_total (ht : Total ops) : ∀ (fuel : Nat) (heap : List (α × Nat)) (next : Nat),
+    fuel = heap.length → heap ≠ [] → ∃ T, treeLoop ops fuel heap next = some T
+  | 0, heap, _, hf, hne => absurd (List.eq_nil_of_length_eq_zero hf.symm) hne
+  | fuel + 1, heap, next, hf, hne => by
+    obtain ⟨a, h1, e1⟩ := popMin_isSome (ops := ops) hne
+    simp only [treeLoop, e1]
+    cases e2 : popMin ops h1 with
+    | none => exact ⟨_, rfl⟩
+    | some bh =>
+      obtain ⟨b, h2⟩ := bh
+      obtain ⟨w, hw⟩ := ht a.1 b.1 h2
+      have hl := popMin_length e1
+      have hl2 := popMin_length e2
+      obtain ⟨T', hT'⟩ := treeLoop_total ht fuel ((w, next) :: h2) (next + 1)
+        (by simp; omega) (by simp)
+      exact ⟨Tree.split next a.2 b.2 T', by simp [hw, hT']⟩
+
+end
+
+theorem total_exact : Total exactOps := fun a b h2 => ⟨a + b, by simp [addPush, exactOps]⟩
+theorem total_wrapping (n : Nat) : Total (wrappingOps n) :=
+  fun a b h2 => ⟨(a + b) % 2^n, by simp [addPush, wrappingOps]⟩
+
+/-! ## checked integer weights whose total fits behave like exact weights -/
+
+/-- the sum of all weights in the heap fits `n` bits -/
+def NoOverflow (n : Nat) (heap : List (Nat × Nat)) : Prop := (heap.map (·.1)).sum < 2^n
+
+theorem addPush_checked {n : Nat} {heap h1 h2 : List (Nat × Nat)} {a b : Nat × Nat}
+    (hno : NoOverflow n heap)
+    (e1 : popMin (checkedOps n) heap = some (a, h1))
+    (e2 : popMin (checkedOps n) h1 = some (b, h2)) (next : Nat) :
+    addPush (checkedOps n) a.1 b.1 h2 = .ok (a.1 + b.1) ∧
+      NoOverflow n ((a.1 + b.1, next) :: h2) := by
+  have hp := (pop2_perm e1 e2).map (·.1)
+  have hs := hp.sum_nat
+  simp only [List.map_cons, List.sum_cons] at hs
+  simp only [NoOverflow] at hno ⊢
+  have : a.1 + b.1 < 2^n := by omega
+  simp only [addPush, checkedOps, this, if_true, List.map_cons, List.sum_cons]
+  exact ⟨by simp, by omega⟩
+
+theorem popMin_checked (n : Nat) (heap : List (Nat × Nat)) :
+    popMin (checkedOps n) heap = popMin exactOps heap := by
+  induction heap with
+  | nil => rfl
+  | cons x xs ih => simp only [popMin, ih]; rfl
+
+theorem encLoop_checked (n : Nat) : ∀ (fuel : Nat) (heap : List (Nat × Nat))
+    (arr : List Nat) (next : Nat), NoOverflow n heap →
+    encLoop (checkedOps n) fuel heap arr next = encLoop exactOps fuel heap arr next
+  | 0, _, _, _, _ => by simp [encLoop]
+  | fuel + 1, heap, arr, next, hno => by
+    cases e1 : popMin (checkedOps n) heap with
+    | none => simp [encLoop, e1, ← popMin_checked n heap]
+    | some ah =>
+      obtain ⟨a, h1⟩ := ah
+      have e1' := e1; rw [popMin_checked] at e1'
+      cases e2 : popMin (checkedOps n) h1 with
+      | none =>
+        have e2' := e2; rw [popMin_checked] at e2'
+        simp [encLoop, e1, e2, e1', e2']
+      | some bh =>
+        obtain ⟨b, h2⟩ := bh
+        have e2' := e2; rw [popMin_checked] at e2'
+        obtain ⟨hadd, hno'⟩ := addPush_checked hno e1 e2 next
+        have hadd' : addPush exactOps a.1 b.1 h2 = .ok (a.1 + b.1) := by
+          simp [addPush, exactOps]
+        simp only [encLoop, e1, e2, e1', e2', hadd, hadd']
         split
         · split
           · split
             · rfl
-            · next next' _ => exact encLoop_wb_irrelevant wb fuel _ _ _ (by
-                cases wb with
-                | none => trivial
-                | some k => simpa [NoOverflow] using hno')
+            · exact encLoop_checked n fuel _ _ _ hno'
           · rfl
         · rfl
 
-theorem decLoop_wb_irrelevant (wb : Option Nat) : ∀ (fuel : Nat) (heap acc : List (Nat × Nat))
-    (next : Nat), NoOverflow wb heap →
-    decLoop wb fuel heap acc next = decLoop none fuel heap acc next
+theorem decLoop_checked (n : Nat) : ∀ (fuel : Nat) (heap : List (Nat × Nat))
+    (acc : List (Nat × Nat)) (next : Nat), NoOverflow n heap →
+    decLoop (checkedOps n) fuel heap acc next = decLoop exactOps fuel heap acc next
   | 0, _, _, _, _ => by simp [decLoop]
   | fuel + 1, heap, acc, next, hno => by
-    cases e1 : popMin heap with
-    | none => simp [decLoop, e1]
+    cases e1 : popMin (checkedOps n) heap with
+    | none => simp [decLoop, e1, ← popMin_checked n heap]
     | some ah =>
       obtain ⟨a, h1⟩ := ah
-      cases e2 : popMin h1 with
-      | none => simp [decLoop, e1, e2]
+      have e1' := e1; rw [popMin_checked] at e1'
+      cases e2 : popMin (checkedOps n) h1 with
+      | none =>
+        have e2' := e2; rw [popMin_checked] at e2'
+        simp [decLoop, e1, e2, e1', e2']
       | some bh =>
         obtain ⟨b, h2⟩ := bh
-        obtain ⟨hadd, hno'⟩ := addW_ok hno e1 e2 next
-        have hadd' : addW none a.1 b.1 = .ok (a.1 + b.1) := rfl
-        simp only [decLoop, e1, e2, hadd, hadd']
+        have e2' := e2; rw [popMin_checked] at e2'
+        obtain ⟨hadd, hno'⟩ := addPush_checked hno e1 e2 next
+        have hadd' : addPush exactOps a.1 b.1 h2 = .ok (a.1 + b.1) := by
+          simp [addPush, exactOps]
+        simp only [decLoop, e1, e2, e1', e2', hadd, hadd']
         split
         · rfl
-        · next next' _ => exact decLoop_wb_irrelevant wb fuel _ _ _ (by
-            cases wb with
-            | none => trivial
-            | some k => simpa [NoOverflow] using hno')
+        · exact decLoop_checked n fuel _ _ _ hno'
+
+theorem treeLoop_checked (n : Nat) : ∀ (fuel : Nat) (heap : List (Nat × Nat)) (next : Nat),
+    NoOverflow n heap →
+    treeLoop (checkedOps n) fuel heap next = treeLoop exactOps fuel heap next
+  | 0, _, _, _ => by simp [treeLoop]
+  | fuel + 1, heap, next, hno => by
+    cases e1 : popMin (checkedOps n) heap with
+    | none => simp [treeLoop, e1, ← popMin_checked n heap]
+    | some ah =>
+      obtain ⟨a, h1⟩ := ah
+      have e1' := e1; rw [popMin_checked] at e1'
+      cases e2 : popMin (checkedOps n) h1 with
+      | none =>
+        have e2' := e2; rw [popMin_checked] at e2'
+        simp [treeLoop, e1, e2, e1', e2']
+      | some bh =>
+        obtain ⟨b, h2⟩ := bh
+        have e2' := e2; rw [popMin_checked] at e2'
+        obtain ⟨hadd, hno'⟩ := addPush_checked hno e1 e2 next
+        have hadd' : addPush exactOps a.1 b.1 h2 = .ok (a.1 + b.1) := by
+          simp [addPush, exactOps]
+        simp only [treeLoop, e1, e2, e1', e2', hadd, hadd']
+        rw [treeLoop_checked n fuel _ _ hno']
 
 end CV.Huff
